@@ -278,8 +278,14 @@ def rule_compile_lit(rep, crate):
     rep.inst(rid, 'compile_lit:body', detail=sorted(set(short(n) for n in names)))
     lits = [n for n in names if re.search(r'hir::Hir::literal$', n)]
     parse = [n for n in names if re.search(r'ParserBuilder|::parse$|Parser::parse|translate', n)]
-    if len(lits) < 2:
-        rep.viol(rid, 'compile_lit:no-literal', 'compile_lit does not build Hir::literal for both literal kinds', loc(fn))
+    # both literal kinds reach Hir::literal (one call per kind, or one call fed by a match over the kinds)
+    kinds = set()
+    for b, t in fn.calls():
+        if re.search(r'hir::Hir::literal$', fn.callee_name(t)):
+            sl0 = fn.slice(t['args'][0])
+            kinds |= {k for k in ('LitStr', 'LitByteStr') if sl0.calls_matching(r'%s::value$' % k)}
+    if not lits or kinds != {'LitStr', 'LitByteStr'}:
+        rep.viol(rid, 'compile_lit:no-literal', 'compile_lit does not build Hir::literal for both literal kinds (kinds reaching Hir::literal: %s)' % sorted(kinds), loc(fn))
     if parse:
         rep.viol(rid, 'compile_lit:parses', 'compile_lit calls the regex parser (%s)' % parse, loc(fn))
     for b, t in fn.calls():
@@ -1105,8 +1111,16 @@ def rule_utf8_flow(rep, crate):
                 rep.viol(rid, 'utf8-flow:sink:%s#%d' % (short(name), i), 'argument %d of %s depends (by data or control) on the utf8 flag: switching modes would change more than the source type and the NFA mode' % (i, name), loc(fn, t['line']))
     rep.inst(rid, 'generate:sensitive-sink-arguments', detail=n)
     # inside Graph::new: config.utf8_mode only feeds thompson::Config::utf8
-    g = crate.fns.get('graph::Graph::new')
-    if rep.anchor(rid, 'fn graph::Graph::new', g is not None):
+    g0 = crate.fns.get('graph::Graph::new')
+    # ... and inside the private associated functions of Graph that Graph::new hands its config to
+    g_fns = [g0] if g0 is not None else []
+    if g0 is not None:
+        for _b, t in g0.calls():
+            h = crate.fns.get(g0.callee_name(t))
+            if h is not None and h is not g0 and h.name.startswith('graph::Graph::') and h not in g_fns and any(desc(g0, a) == 'param2' for a in t['args']):
+                g_fns.append(h)
+    rep.anchor(rid, 'fn graph::Graph::new', g0 is not None)
+    for g in g_fns:
         reads = []
         for bi, si, st in g.stmts():
             rhs = st['rhs']
@@ -1119,7 +1133,7 @@ def rule_utf8_flow(rep, crate):
                 rep.viol(rid, 'utf8-flow:graph-branch', 'Graph::new branches on config.utf8_mode', loc(g, g.blocks[sb]['term']['line']))
         utf8_calls = find_calls(g, r'thompson::Config::utf8$')
         rep.inst(rid, 'Graph::new:utf8_mode', detail=dict(reads=len(reads), nfa_utf8_calls=len(utf8_calls)))
-        if len(utf8_calls) != 1 or desc(g, utf8_calls[0][1]['args'][1]) != 'param2.utf8_mode':
+        if g is g0 and nfa_utf8_args(crate, g) != ['param2.utf8_mode']:
             rep.viol(rid, 'nfa-utf8-arg', 'thompson::Config::utf8 is not given exactly config.utf8_mode', loc(g))
         for bi, st in reads:
             dl = derived_locals(g, st['lhs']['local'])
@@ -1292,13 +1306,31 @@ def rule_empty_rejected(rep, crate):
     # in generate the EmptyMatch arm records an error: covered by M-C19b (graph-error-arm)
 
 
+def nfa_utf8_args(crate, g):
+    """what thompson::Config::utf8 receives, described from Graph::new's point of view; the call may sit in a private
+    associated function of Graph that Graph::new hands its `config` to (`Self::nfa_config(&config)`)"""
+    out = [desc(g, t['args'][1]) for _b, t in find_calls(g, r'thompson::Config::utf8$')]
+    for _b, t in g.calls():
+        h = crate.fns.get(g.callee_name(t))
+        if h is None or h is g or not h.name.startswith('graph::Graph::'):
+            continue
+        for _b2, t2 in find_calls(h, r'thompson::Config::utf8$'):
+            d = desc(h, t2['args'][1])
+            m = re.fullmatch(r'param(\d+)\.utf8_mode', d)
+            if m and int(m.group(1)) <= len(t['args']) and desc(g, t['args'][int(m.group(1)) - 1]) == 'param2':
+                d = 'param2.utf8_mode'
+            else:
+                d = '%s in %s' % (d, h.name)
+            out.append(d)
+    return out
+
+
 def rule_nfa_mode(rep, crate):
     rid = rep.rule('M-C04b', 'the NFA is compiled in UTF-8 mode exactly when the definition is in str mode: thompson::Config::utf8 receives config.utf8_mode and nothing else', floor=1)
     g = crate.fns.get('graph::Graph::new')
     if not rep.anchor(rid, 'fn Graph::new', g is not None):
         return
-    calls = find_calls(g, r'thompson::Config::utf8$')
-    d = [desc(g, t['args'][1]) for _b, t in calls]
+    d = nfa_utf8_args(crate, g)
     rep.inst(rid, 'Graph::new:nfa-utf8', detail=d)
     if d != ['param2.utf8_mode']:
         rep.viol(rid, 'nfa-utf8-arg', 'thompson::Config::utf8 is given %s, expected config.utf8_mode' % d, loc(g))
@@ -1759,14 +1791,20 @@ def rule_dfa_config(rep, crate):
     want = [(r'dfa::dense::Config::match_kind$', 1, 'agg:regex_automata::MatchKind::All{}', 'match kind'),
             (r'dfa::dense::Config::start_kind$', 1, 'agg:regex_automata::dfa::StartKind::Anchored{}', 'start kind'),
             (r'Automaton>::universal_start_state$', 1, 'agg:regex_automata::Anchored::Yes{}', 'anchoring of the start state')]
+    # the configuration may be built in private associated functions of Graph called from Graph::new (`Self::dfa_config()`)
+    helpers = []
+    for _b, t in fn.calls():
+        g = crate.fns.get(fn.callee_name(t))
+        if g is not None and g.name.startswith('graph::Graph::') and g is not fn and g not in helpers:
+            helpers.append(g)
     for pat, idx, val, what in want:
-        calls = find_calls(fn, pat)
-        rep.inst(rid, 'dfa-config:%s' % what, detail=[desc(fn, t['args'][idx]) for _b, t in calls])
+        calls = [(f, b, t) for f in [fn] + helpers for b, t in find_calls(f, pat)]
+        rep.inst(rid, 'dfa-config:%s' % what, detail=[desc(f, t['args'][idx]) for f, _b, t in calls])
         if not calls:
             rep.viol(rid, 'dfa-config:missing:%s' % what, 'no call sets the %s of the automaton' % what, loc(fn))
-        for b, t in calls:
-            if desc(fn, t['args'][idx]) != val:
-                rep.viol(rid, 'dfa-config:%s' % what, 'the %s is %s, expected %s' % (what, desc(fn, t['args'][idx]), val), loc(fn, t['line']))
+        for f, b, t in calls:
+            if desc(f, t['args'][idx]) != val:
+                rep.viol(rid, 'dfa-config:%s' % what, 'the %s is %s, expected %s' % (what, desc(f, t['args'][idx]), val), loc(f, t['line']))
     builds = find_calls(fn, r'thompson::Compiler::build_many_from_hir$')
     rep.inst(rid, 'dfa-config:patterns', detail=len(builds))
     if len(builds) != 1:
